@@ -265,16 +265,17 @@ def build_and_run(program, style, mode):
         # run (to completion when reset_k < 0, else pause after reset_k deliveries), control.reset(), run again:
         # the second run is judged by the same oracle as a first run
         ctl = sim.control
-        if reset_k < 0:
-            sim.run()
-        else:
-            ctl.pause()
-            sim.run()
-            if reset_k > 0 and ctl.is_paused:
-                ctl.step(reset_k)
-        c.first_run = list(c.deliveries)
-        ctl.reset()
-        c.reset_for_rerun()
+        for k in (reset_k if isinstance(reset_k, tuple) else (reset_k,)):  # several resets in a row
+            if k < 0:
+                sim.run()
+            else:
+                ctl.pause()
+                sim.run()
+                if k > 0 and ctl.is_paused:
+                    ctl.step(k)
+            c.first_run = list(c.deliveries)
+            ctl.reset()
+            c.reset_for_rerun()
         c.summary = sim.run()
         return c
     if inject is None:
@@ -514,7 +515,7 @@ def main(tier, seed, only=None):
         fams.append(("p3-bulk", 3, BEH_BULK, (0, 1), False, ["list"], [(None, False), (3, True)]))
         fams.append(("p3-futures", 3, BEH_FUT, (0, 1), False, ["list"], [(None, False), (None, True), (3, False)]))
         fams.append(("p2-reset-rerun", 2, BEH_RESET, (0, 1, 2), False, ["list"],
-                     [(e, True, None, None, k) for e in (None, 2) for k in (-1, 0, 1, 2)]))
+                     [(e, True, None, None, k) for e in (None, 2) for k in (-1, 0, 1, 2, (-1, -1), (1, -1), (-1, 1))]))
     else:
         fams.append(("p1-full", 1, BEH_FULL, (0, 1, 2, 3), True, STYLES, MODES))
         fams.append(("p2-full-2targets", 2, BEH_FULL, (0, 1, 2), True, STYLES, MODES))
@@ -529,7 +530,8 @@ def main(tier, seed, only=None):
         fams.append(("p3-bulk", 3, BEH_BULK + [("bulk", 31), ("bulk", 33), ("bulkmix", 64)], (0, 1, 2), False, ["list", "reversed"], MODES))
         fams.append(("p3-futures", 3, BEH_FUT, (0, 1, 2), True, ["list", "reversed"], MODES))
         fams.append(("p3-reset-rerun", 3, BEH_RESET, (0, 1, 2), False, ["list", "separate"],
-                     [(e, True, None, None, k) for e in (None, 2) for k in (-1, 0, 1, 2, 3)]))
+                     [(e, True, None, None, k) for e in (None, 2)
+                      for k in (-1, 0, 1, 2, 3, (-1, -1), (1, -1), (-1, 1), (2, 2), (-1, -1, -1))]))
     for f in fams:
         if only and f[0] not in only:
             continue
